@@ -14,6 +14,7 @@ class Verifier(ExecMixin, Engine):
 
     def __init__(self, *a, **kw):
         Engine.__init__(self, *a, **kw)
+        self.assumed_inputs = set()
         # ghost fields declared in the class table are addressable as locations: ghost(obj, 'name')
         for info in self.classes.values():
             for gname, srt in info.get('ghosts', {}).items():
